@@ -1,6 +1,6 @@
 module verifharness
 
-go 1.25.0
+go 1.26.8
 
 require (
 	github.com/gokrazy/rsync v0.0.0
